@@ -897,6 +897,13 @@ SET_METHODS['remove'] = Builtin('set.remove', _set_remove)
 SET_METHODS['issubset'] = Builtin('set.issubset', lambda eng, s, o: set(s).issubset(set(eng.hashable(x) for x in eng.iterate(o))))
 SET_METHODS['union'] = Builtin('set.union', lambda eng, s, o: set(s) | set(eng.hashable(x) for x in eng.iterate(o)))
 SET_METHODS['copy'] = Builtin('set.copy', lambda eng, s: set(s))
+SET_METHODS['intersection'] = Builtin('set.intersection', lambda eng, s, *o: type(s)(set(s).intersection(*[set(eng.hashable(x) for x in eng.iterate(y)) for y in o])))
+SET_METHODS['difference'] = Builtin('set.difference', lambda eng, s, *o: type(s)(set(s).difference(*[set(eng.hashable(x) for x in eng.iterate(y)) for y in o])))
+SET_METHODS['issuperset'] = Builtin('set.issuperset', lambda eng, s, o: set(s).issuperset(set(eng.hashable(x) for x in eng.iterate(o))))
+SET_METHODS['isdisjoint'] = Builtin('set.isdisjoint', lambda eng, s, o: set(s).isdisjoint(set(eng.hashable(x) for x in eng.iterate(o))))
+SET_METHODS['update'] = Builtin('set.update', lambda eng, s, *o: [s.update(set(eng.hashable(x) for x in eng.iterate(y))) for y in o] and None)
+SET_METHODS['pop'] = Builtin('set.pop', lambda eng, s: _set_pop(s))
+SET_METHODS['clear'] = Builtin('set.clear', lambda eng, s: s.clear())
 
 
 # ----------------------------------------------------------------------------------------
@@ -1101,6 +1108,29 @@ def b_tuple(eng, xs=()): return tuple(eng.iterate(xs))
 @B('set')
 def b_set(eng, xs=()):
     return set(eng.hashable(x) for x in eng.iterate(xs))
+
+
+def _set_pop(s):
+    if not s: raise PyExc('KeyError', 'pop from an empty set')
+    raise Unsupported('set.pop: the element removed depends on hash order')
+
+
+@B('frozenset')
+def b_frozenset(eng, xs=()):
+    return frozenset(eng.hashable(x) for x in eng.iterate(xs))
+
+
+@B('np.argsort')
+def np_argsort(eng, v):
+    items = list(v.items if isinstance(v, NVec) else eng.iterate(v))
+    idx = list(range(len(items)))
+    # stable insertion sort with path decisions on the comparisons
+    for i in range(1, len(idx)):
+        j = i
+        while j > 0 and eng.truth(compare(eng, ast.Lt(), items[idx[j]], items[idx[j - 1]])):
+            idx[j - 1], idx[j] = idx[j], idx[j - 1]
+            j -= 1
+    return NVec(idx)
 
 
 @B('dict')
@@ -1365,6 +1395,27 @@ def np_argmin(eng, v):
     return best
 
 
+def _nan_arg(eng, v, op, name):
+    items = v.items if isinstance(v, NVec) else eng.iterate(v)
+    best = None
+    for k in range(len(items)):
+        if isinstance(items[k], V.NaN):
+            continue
+        if best is None or eng.truth(compare(eng, op, items[k], items[best])):
+            best = k
+    if best is None:
+        raise PyExc('ValueError', 'All-NaN slice encountered')
+    return best
+
+
+@B('np.nanargmin')
+def np_nanargmin(eng, v): return _nan_arg(eng, v, ast.Lt(), 'nanargmin')
+
+
+@B('np.nanargmax')
+def np_nanargmax(eng, v): return _nan_arg(eng, v, ast.Gt(), 'nanargmax')
+
+
 @B('fsolve')
 def sp_fsolve(eng, f, x0, *a, **k):
     eng.assumptions_used.add('scipy.optimize.fsolve is external: it returns a 1-element array holding an unconstrained real')
@@ -1476,7 +1527,7 @@ def _exc(name):
 
 BUILTINS = {}
 for _b in (b_len, b_range, b_int, b_float, b_str, b_abs, b_min, b_max, b_sum, b_all, b_any, b_zip,
-           b_enumerate, b_reversed, b_list, b_tuple, b_set, b_dict, b_sorted, b_isinstance, b_property,
+           b_enumerate, b_reversed, b_list, b_tuple, b_set, b_frozenset, b_dict, b_sorted, b_isinstance, b_property,
            b_round, b_ord, b_chr, b_repr, b_hasattr, b_getattr, b_callable, b_bool, b_object):
     BUILTINS[_b.name] = _b
 for _e in list(V.EXC_PARENT):
@@ -1500,7 +1551,7 @@ def _fs_exists(eng, p):
 
 
 _np = {
-    'array': np_array, 'zeros': np_zeros, 'ones': np_ones, 'dot': np_dot, 'argmax': np_argmax, 'argmin': np_argmin, 'searchsorted': np_searchsorted, 'sqrt': m_sqrt, 'sum': np_sum, 'any': np_any, 'cumsum': np_cumsum,
+    'array': np_array, 'zeros': np_zeros, 'ones': np_ones, 'dot': np_dot, 'argmax': np_argmax, 'argmin': np_argmin, 'searchsorted': np_searchsorted, 'sqrt': m_sqrt, 'sum': np_sum, 'any': np_any, 'cumsum': np_cumsum, 'nanargmin': np_nanargmin, 'argsort': np_argsort, 'nanargmax': np_nanargmax,
     'nan': NAN, 'inf': V.Inf(1), 'float64': b_float, 'abs': b_abs, 'ceil': m_ceil, 'floor': m_floor,
     'pi': None,
     'int8': _DType('int8', True), 'int16': _DType('int16', True), 'int32': _DType('int32', True), 'int64': _DType('int64', True),
